@@ -210,3 +210,22 @@ _reg(
     "Exploration, exhaustive for source types up to 16 bits in quick and up to 32 bits in thorough; 64-bit sources sampled.",
     exhaustive={"thorough": "all bit patterns of every source type up to 32 bits for every accepted intermediate type", "quick": "all bit patterns of every source type up to 16 bits for every accepted intermediate type"},
 )
+
+_reg(
+    "C16",
+    "fault_enumeration",
+    "cases = (a) an unsupported zoo of 23 constructs (unregistered primitive at top level / in fori, while, scan bodies / in a cond branch / nested "
+    "/ in a function body / in a while condition; 3- and 4-way switch; reverse scan; traced fori bounds; sabotaged plugin lowerings that leave an "
+    "output unbound, bind a disconnected value or raise inside a loop / function body; ...): to_onnx must raise, or return a valid model that agrees "
+    "with JAX; (b) for each program (registry programs chosen so that every pass has work + NHWC programs with layout flags) every optimizer pass "
+    "index k x {fault before, fault after its effect} x {default policy, strict env var, strict argument} (quick: strict modes on a third of the "
+    "points) + faults inside the function-body pipeline: default policy must return a valid model (checker, strict inference, ORT load, structural "
+    "walker) equivalent to the callable, strict must re-raise the injected exception. evaluations = injected faults actually raised + zoo exports "
+    "attempted; non-trivial = the injected fault was raised (interposer counter) and the outcome judged, or the construct was traced and judged; "
+    "distinct = (program, k, when, policy) / construct.",
+    (400, 300, 5000, 4000),
+    "fault injection at pass boundaries of the real optimizer (interposition) + unsupported-construct zoo; validity and differential oracles on what is returned",
+    "DESIGN.md 2.6, 3/C16",
+    "Fault enumeration: pass indices enumerated completely for every program (before/after each pass); crash points inside a pass are approximated by its boundaries.",
+    exhaustive={"quick": "every optimizer pass index x {before, after} for each listed program under the default policy", "thorough": "every optimizer pass index x {before, after} x 3 policies for each listed program"},
+)
